@@ -60,23 +60,28 @@ def check(ctx):
     hcalls = calls(body, "Listener::<Stat, Disc, Filt, Stra, Auth, Loca>::handle") or calls(body, "Listener::handle")
     ctx.exact(R, "handle() call in the accept loop", len(hcalls), 1, body.loc)
     if out_sw and closes and hcalls:
-        stop_t = [tb for tb, l in out_sw[1].items() if "_%d" % stp[0] in l]
-        acc_t = [tb for tb, l in out_sw[1].items() if "_%d" % acc[0] in l]
-        # stop handler reaches close() without passing accept/handle again
-        for tb in stop_t:
-            p = g.path(g.nodes_of_bb(tb), [closes[0][0]], cut_nodes=[hcalls[0][0], sbb])
-            ctx.check(p is not None, R, "C17/stop-branch/leaves-loop", site(body, tb),
-                      reason="the stop branch does not leave the accept loop towards tracker.close()", detail="stop branch -> tracker.close()")
-            back = g.path(g.nodes_of_bb(tb), [hcalls[0][0]], cut_nodes=[])
-            ctx.check(back is None, R, "C17/stop-branch/no-accept-after-stop", site(body, tb),
-                      reason="after the stop branch the loop can still handle a connection", detail="no handle() reachable after the stop branch")
+        # two scenarios (pv/sample.py): every select! outcome is the stop branch / every outcome is the accept branch.
+        # Variables that carry the outcome on (`let next = select!{.. => None, .. => Some(x)}`) are tracked as variant tags.
+        from ..sample import Scenario
+
+        def out(label):
+            def sw(bb, e, ls):
+                return (label,) if bb == out_sw[0] else None
+            return sw
+        stop_s = Scenario(ctx, body, switches=out("_%d" % stp[0]), opt=False)
+        acc_s = Scenario(ctx, body, switches=out("_%d" % acc[0]), opt=False)
+        hb, cb_ = hcalls[0][0], closes[0][0]
+        p = stop_s.g.path(stop_s.g.nodes_of_bb(out_sw[0]), [cb_], cut_nodes=[hb, sbb])
+        ctx.check(p is not None, R, "C17/stop-branch/leaves-loop", site(body, out_sw[0]),
+                  reason="the stop branch does not leave the accept loop towards tracker.close()", detail="stop branch -> tracker.close()")
+        back = stop_s.g.path(stop_s.g.nodes_of_bb(out_sw[0]), [hb], cut_nodes=[])
+        ctx.check(back is None, R, "C17/stop-branch/no-accept-after-stop", site(body, out_sw[0]),
+                  reason="after the stop branch the loop can still handle a connection", detail="no handle() reachable after the stop branch")
         # handle() only on the accept arm
-        okk, p = g.must_pass(hcalls[0][0], cut_edges=[(out_sw[0], tb) for tb in acc_t])
-        ctx.check(okk, R, "C17/stop-branch/handle-on-accept-arm", site(body, hcalls[0][0]),
-                  reason="handle() reachable without an accepted connection", detail="handle() only on the accept arm")
+        ctx.check(not stop_s.reachable(hb) and acc_s.reachable(hb), R, "C17/stop-branch/handle-on-accept-arm", site(body, hb),
+                  reason="handle() reachable without an accepted connection (or not reachable with one)", detail="handle() only on the accept arm")
         # loop exits: close() reachable only via stop arm (accept errors return Err)
-        okk, p = g.must_pass(closes[0][0], cut_edges=[(out_sw[0], tb) for tb in stop_t])
-        ctx.check(okk, R, "C17/stop-branch/only-exit", site(body, closes[0][0]),
+        ctx.check(not acc_s.reachable(cb_), R, "C17/stop-branch/only-exit", site(body, cb_),
                   reason="the drain phase is reachable without a stop request", detail="close() only after the stop branch")
 
     # ---- C17/stop-priority
